@@ -225,13 +225,34 @@ class chunks(object):
         raChunkMin = np.zeros(decChunkMax-decChunkMin+1, dtype='i4')
         raChunkMax = np.zeros(decChunkMax-decChunkMin+1, dtype='i4')
         for i in range(decChunkMin, decChunkMax+1):
-            cosDecMin = self.cosDecMin(i)
+            #
+            # Largest difference in ra at which a point of slice i can be
+            # within marginSize of this point:
+            # sin(dra/2) <= sin(marginSize/2)/sqrt(cos(dec1)*cos(dec2)).
+            # (marginSize/cos(dec) underestimates it, noticeably so when
+            # marginSize/cos(dec) is tens of degrees.)
+            #
+            cosDecMin = min(self.cosDecMin(i), np.cos(np.deg2rad(dec)))
+            sinHalf = np.sin(0.5*np.deg2rad(marginSize))
+            if cosDecMin > sinHalf:
+                raMargin = 2.0*np.rad2deg(np.arcsin(sinHalf/cosDecMin))
+            else:
+                raMargin = 360.0
             raChunkMin[i-decChunkMin] = int(np.floor((ra - self.raBounds[i][0]) *
                                                      float(self.nRa[i]) /
                                                      (self.raBounds[i][self.nRa[i]] - self.raBounds[i][0])))
             raChunkMax[i-decChunkMin] = raChunkMin[i-decChunkMin]
             if raChunkMin[i-decChunkMin] < 0 or raChunkMin[i-decChunkMin] > self.nRa[i]-1:
                 raise PydlutilsException("raChunkMin out of range in chunks.getbounds().")
+            if raMargin >= (self.raBounds[i][1] - self.raBounds[i][0]):
+                #
+                # The margin is wider than a chunk (this only happens close
+                # to a pole or for very large marginSize): the search below
+                # wraps around ra = 0 by one chunk only, so take them all.
+                #
+                raChunkMin[i-decChunkMin] = 0
+                raChunkMax[i-decChunkMin] = self.nRa[i] - 1
+                continue
             #
             # Set minimum and maximum bounds of ra
             #
@@ -239,7 +260,7 @@ class chunks(object):
             keepGoing = True
             while keepGoing and raCheck > -1:
                 if raCheck >= 0 and raCheck < self.nRa[i]:
-                    keepGoing = (ra - self.raBounds[i][raCheck])*cosDecMin < marginSize
+                    keepGoing = (ra - self.raBounds[i][raCheck]) < raMargin
                 else:
                     keepGoing = False
                 if keepGoing:
@@ -249,7 +270,7 @@ class chunks(object):
             keepGoing = True
             while keepGoing and raCheck < self.nRa[i]:
                 if raCheck >= 0 and raCheck < self.nRa[i]:
-                    keepGoing = (self.raBounds[i][raCheck+1]-ra)*cosDecMin < marginSize
+                    keepGoing = (self.raBounds[i][raCheck+1]-ra) < raMargin
                 else:
                     keepGoing = False
                 if keepGoing:
